@@ -6,6 +6,7 @@ close / GC interleaving) the model can take from the initial state; proofs are b
 -/
 import JanetModel.Loop.Model
 import JanetModel.Loop.SelfPipe
+import JanetModel.Loop.FdPaths
 import JanetModel.Loop.FdsSpawn
 import JanetModel.Loop.Child
 
@@ -708,6 +709,95 @@ example : (janetLoop Cfg.ofGen { init with runq := [1] }
     [ { expired := [], tasks := [⟨1, false, [.sched 2], false⟩, ⟨2, false, [.tadd ⟨2, false⟩], true⟩], stale := fun _ => false, delivered := [] },
       { expired := [(⟨2, false⟩, some 2)], tasks := [⟨2, false, [], false⟩], stale := fun _ => false, delivered := [] } ]).map summary
     = some (0, 0, true, true, 0) := by decide
+
+/-! ## path-level descriptor balance of the descriptor-creating C functions (session 4)
+
+`Gen.FdPaths.paths`: every control-flow path of janet_make_pipe, get_file_for_stream (ev/to-file), janet_stream_marshal,
+net_callback_accept, make_pipes, os_open, os_pipe, cfun_io_fopen (file/open), cfun_io_temp, janet_watcher_init (filewatch/new),
+walked on the preprocessed source by tools/gen/fdpaths.py with its descriptor events.  Lean replays each path. -/
+
+section FdPathsSec
+open JanetModel.FdPaths (pathOk expectedHeld delta net tableKeys pathKeys pseudoKeys)
+
+/-- every extracted path obeys the ownership discipline and leaves nothing in a C local at its exit (return, raise, end of
+    function) - except the two ends a pipe constructor returns to its caller -/
+theorem fd_paths_ok : Gen.FdPaths.paths.all pathOk = true := by decide
+
+/-- the events of the paths are sites of the regenerated site table (`Gen.Fds.fdSites`) of the same function … -/
+theorem fd_paths_sites_in_table :
+    Gen.FdPaths.functions.all (fun fn => (pathKeys fn).all (fun k => (tableKeys fn).contains k || pseudoKeys.contains k)) = true := by
+  decide
+
+/-- … and every create / close / wrap site the table has for these functions lies on some extracted path -/
+theorem fd_paths_cover_sites :
+    Gen.FdPaths.functions.all (fun fn => (tableKeys fn).all (fun k => (pathKeys fn).contains k)) = true := by decide
+
+private theorem len_erase_str {v : String} {l : List String} (h : v ∈ l) : ((l.erase v).length : Int) = (l.length : Int) - 1 := by
+  have h1 := List.length_erase_of_mem h
+  have h2 : 0 < l.length := List.length_pos_of_mem h
+  omega
+
+/-- the replay counts: descriptors held afterwards = held before + created − closed − handed to an owning object (for every
+    event list, not only the generated ones) -/
+theorem fd_run_count : ∀ (evs : List FdPaths.PEv) (held held' : List String), FdPaths.run held evs = some held' →
+    (held'.length : Int) = held.length + net evs
+  | [], held, held', h => by simp [FdPaths.run] at h; subst h; simp [net]
+  | e :: es, held, held', h => by
+    simp only [FdPaths.run] at h
+    cases hs : FdPaths.step held e with
+    | none => rw [hs] at h; simp at h
+    | some h1 =>
+      rw [hs] at h
+      have ih := fd_run_count es h1 held' h
+      have hd : (h1.length : Int) = held.length + delta e := by
+        unfold FdPaths.step at hs
+        unfold delta
+        by_cases c1 : e.1 = "create"
+        · simp only [c1, if_true] at hs ⊢
+          by_cases m : e.2.1 ∈ held
+          · simp [m] at hs
+          · simp [m] at hs; subst hs; simp
+        · simp only [c1, if_false] at hs ⊢
+          by_cases c2 : e.1 = "close" ∨ e.1 = "wrap"
+          · simp only [c2, if_true] at hs ⊢
+            by_cases m : e.2.1 ∈ held
+            · simp [m] at hs; subst hs; have := len_erase_str m; omega
+            · simp [m] at hs
+          · simp only [c2, if_false] at hs ⊢
+            by_cases c3 : e.1 = "move"
+            · simp only [c3, if_true] at hs
+              by_cases m : e.2.1 ∈ held ∧ e.2.2.1 ∉ held.erase e.2.1
+              · rw [if_pos m] at hs; simp at hs; subst hs
+                have := len_erase_str m.1
+                simp only [List.length_cons]; omega
+              · rw [if_neg m] at hs; simp at hs
+            · simp [c3] at hs
+      simp only [net]
+      omega
+
+/-- ★ on every extracted path that is not a pipe constructor's successful return, as many descriptors are closed or handed to an
+    object with a finaliser as were opened - on error returns and raises as well as on success -/
+theorem fd_paths_balanced (p : FdPaths.Path) (hp : p ∈ Gen.FdPaths.paths) (he : expectedHeld p = 0) : net p.2.2.2 = 0 := by
+  have hall := List.all_eq_true.mp fd_paths_ok p hp
+  unfold pathOk at hall
+  cases hr : FdPaths.run [] p.2.2.2 with
+  | none => rw [hr] at hall; simp at hall
+  | some held =>
+    rw [hr] at hall
+    have hc := fd_run_count p.2.2.2 [] held hr
+    rw [he] at hall
+    simp at hall
+    simp [hall] at hc
+    omega
+
+/-- the discipline rejects a path that leaves a local holding a descriptor (ev/to-file without the close on the failed-fdopen
+    branch), a double close, and an overwritten local -/
+example : pathOk ("get_file_for_stream", "return", "((void*)0)", [("create", "fd_dup", "", "dup(stream->handle)")]) = false := by decide
+example : pathOk ("f", "return", "", [("create", "fd", "", "k"), ("close", "fd", "", "k"), ("close", "fd", "", "k")]) = false := by decide
+example : pathOk ("f", "return", "", [("create", "fd", "", "k"), ("create", "fd", "", "k"), ("close", "fd", "", "k")]) = false := by decide
+example : Gen.FdPaths.paths.length ≥ 40 := by decide
+
+end FdPathsSec
 
 /-! ## the self pipe: every completion written by another thread is delivered (session 4)
 
